@@ -148,7 +148,7 @@ class Denotation:
             return res
         if name == "evidence":
             xx = dict(x)
-            for k, val in op[1].items():
+            for k, val in (op[1] if isinstance(op[1], list) else op[1].items()):
                 xx[int(k)] = Val.const(val)
             # symbolic observations (if the harness made the observation parameters symbolic): the
             # "given values" are then the symbols bound to the evidence layers of the result circuit
